@@ -216,7 +216,7 @@ fn trailer_menu() -> Vec<Trailers> {
 fn cases(tier: Tier) -> Vec<Case> {
     let mut out = vec![];
     let msg_sets: Vec<Vec<(u8, Vec<u8>)>> = vec![vec![], vec![(0, vec![])], vec![(0, vec![7])], vec![(1, vec![1, 2, 3]), (0, vec![])], vec![(0, vec![9, 9, 9]), (0, vec![8])]];
-    let free_limit = tier.q(21, 23);
+    let free_limit = tier.q(21, 24);
     for msgs in &msg_sets {
         for (ti, tr) in trailer_menu().into_iter().enumerate() {
             for space in [false, true] {
@@ -297,7 +297,7 @@ pub fn property(tier: Tier) -> Property {
     let a = Section::new(
         "client-body",
         Config { max_bound: tier.q(2, 3), hang_secs: 20, ..Default::default() },
-        "cases: grpc-web response bodies built by the independent encoder: 0..2 message frames (flags 0/1, payloads 0..3 bytes) + one 0x80 trailers frame over a trailer-map menu (values with ':' and spaces, repeated names, empty values; 'k:v' and 'k: v' spellings), plus truncation at every byte and an invalid flag byte at every frame start; environment: every chunking (all compositions for bodies <= 21/23 bytes, otherwise <= bound cuts/Pending deviations) plus byte-by-byte drip through GrpcWebClientService over a scripted inner service; oracle: DATA concatenates to exactly the message-frame bytes, then exactly one trailers frame equal as a multimap to what was sent, then None; truncated inside a frame / bad flag => an error and never a clean end; no busy loop. Non-trivial = body delivered in more than one chunk, truncated or corrupted.",
+        "cases: grpc-web response bodies built by the independent encoder: 0..2 message frames (flags 0/1, payloads 0..3 bytes) + one 0x80 trailers frame over a trailer-map menu (values with ':' and spaces, repeated names, empty values; 'k:v' and 'k: v' spellings), plus truncation at every byte and an invalid flag byte at every frame start; environment: every chunking (all compositions for bodies <= 21/24 bytes, otherwise <= bound cuts/Pending deviations) plus byte-by-byte drip through GrpcWebClientService over a scripted inner service; oracle: DATA concatenates to exactly the message-frame bytes, then exactly one trailers frame equal as a multimap to what was sent, then None; truncated inside a frame / bad flag => an error and never a clean end; no busy loop. Non-trivial = body delivered in more than one chunk, truncated or corrupted.",
         cases(tier),
         |c: &Case| format!("msgs={:?} trailers={:?} space={} truncate={:?} bad_flag={:?} free={} drip={}", c.msgs, show(&c.trailers), c.space, c.truncate, c.bad_flag, c.free, c.drip),
         body,
